@@ -99,6 +99,17 @@ def replay(c, out, fmt):
         As = frozenset(As) if not isinstance(As, frozenset) else As
         d = sfunc.deriv_at(it, rho, active_set=mask(As)).toarray()
         chk("scaled_deriv_at", eq(d, [list(row) for row in M]))
+    # the functions are functions of (point, multiplier, rho): the SAME function and iterate objects asked with another rho must
+    # answer like fresh objects do (those answers are validated against the spec in the states of that rho)
+    rho2 = 3.0 - rho if rho in (1.0, 2.0) else 2.0 * rho
+    it2 = Iterate(prob, params, x, y)
+    orig2 = Iterate(prob, params, np.array(c["xhat"], dtype=float), np.array([float(c["yhat"])]))
+    f2, s2 = ImplicitFunc(prob, orig2, dt), ScaledImplicitFunc(prob, orig2, dt)
+    chk("otherrho.compute_active_set", eq(func.compute_active_set(it, rho2), f2.compute_active_set(it2, rho2)))
+    chk("otherrho.value_at", eq(func.value_at(it, rho2), f2.value_at(it2, rho2)))
+    chk("otherrho.deriv_at", eq(func.deriv_at(it, rho2).toarray(), f2.deriv_at(it2, rho2).toarray()))
+    chk("otherrho.scaled_value_at", eq(sfunc.value_at(it, rho2), s2.value_at(it2, rho2)))
+    chk("otherrho.scaled_deriv_at", eq(sfunc.deriv_at(it, rho2).toarray(), s2.deriv_at(it2, rho2).toarray()))
     # evaluating derivatives must not disturb the point: everything asked again (cached Jacobian / Hessian included)
     chk("reeval.aug_lag_deriv_x", eq(it.aug_lag_deriv_x(rho), out["Lx"]))
     chk("reeval.aug_lag_deriv_xx", eq(it.aug_lag_deriv_xx(rho).toarray(), [list(r) for r in out["Lxx"]]))
